@@ -273,11 +273,13 @@ def check(run):
     r3_verdict_derivation(run)
     run.rule("R4", "no acceptance unless verified was set under a truthy "
              "verdict; per-certificate XmlsecError is the only swallowed "
-             "failure (C01.R7/R8)")
+             "failure, on the cone and at every call site of a verification "
+             "function in the package (C01.R7/R8/R9)")
     before = len(run.results)
     saved = dict(run.rules)
     c01.r7_response_path(run)
     c01.r8_handler_inventory(run)
+    c01.r9_package_wide_callsite_handlers(run)
     for r in run.results[before:]:
         r["rule"] = "R4"
     run.rules.clear()
